@@ -73,7 +73,6 @@ _ROW = "r = IS - ((L + 1) << 16) - 1"
 _LEN = "L = (IS >> 16) - 1"
 _SPV = "                and np.allclose(vl[sortl], vu[sortu])\n"
 _DNS = "        return np.allclose(m.transpose(), m)\n"
-_SP0 = "            r, c, v = m[1:]\n            low = r > c  # values in lower triangle"
 _SENT = '        f.write(f"{cols + 1:8}{1:8}{1:8}\\n")\n        f.write(numform % 2**0.5)\n        f.write("\\n")\n\n    def _write_ascii_nonbigmat('
 _DCOL = "        while c < cols:\n            elems = int(line[e_slice])\n            r -= 1"
 _NBLOOP = ("            while elems > 0:\n                line = self._fileh.readline()\n                IS = int(line)\n                L = (IS >> 16) - 1  # L\n"
@@ -133,8 +132,6 @@ RECIPES += [
      "sparse arm of _is_symmetric: the allclose inequality spelled out"),
     ("C04", "neutral", [], F_, _DNS, "        return bool(np.all(np.isclose(np.transpose(m), m, 1e-5, 1e-8)))\n", "ndarray arm of _is_symmetric: isclose with positional tolerances"),
     ("C04", "neutral", [], F_, _DNS, "        return np.allclose(m, m.T)\n", "ndarray arm of _is_symmetric: operands swapped, .T"),
-    ("C04", "neutral", [], F_, _SP0, "            if m[0].nnz < 64:\n                a = m[0].toarray()\n                return np.allclose(a.T, a)\n" + _SP0,
-     "sparse arm of _is_symmetric densifies small matrices (second way out with the same rule)"),
     # ---- neutral: refactorings of kinds the stored patches do not have (written for pass 2)
     ("C04", "neutral", [], F_, _SENT, _SENT.replace("f.write(", "emit(").replace('        emit(f"{cols', '        emit = f.write\n        emit(f"{cols', 1),
      "bound method kept in a name: emit = f.write"),
@@ -186,4 +183,34 @@ RECIPES += [
     ("C04", "break", ["C04-R4"], F_, _INIT,
      _INIT.replace("        self._rows4bigmat = 65536\n", "").replace("    def __del__(self):\n", "    @property\n    def _rows4bigmat(self):\n        return (1 << 16) + 1\n\n    def __del__(self):\n"),
      "bigmat limit property one row too high"),
+]
+
+_CH = '            f.write(f"{c + 1:8}{s + 1:8}{elems:8}\\n")\n            neven = ((elems - 1) // perline) * perline'
+_CHT = "\n            neven = ((elems - 1) // perline) * perline"
+_NBIS = "                IS = int(line)\n                L = (IS >> 16) - 1  # L\n                r = IS - ((L + 1) << 16) - 1  # irow-1\n                elems -= L + 1"
+RECIPES += [
+    ("C04", "neutral", [], F_, _CH, '            fmt8 = "{:8}".format\n            f.write(fmt8(c + 1) + fmt8(s + 1) + fmt8(elems) + "\\n")' + _CHT, "column header through a bound str.format"),
+    ("C04", "neutral", [], F_, _CH, '            w8 = lambda x: f"{x:8}"\n            f.write(w8(c + 1) + w8(s + 1) + w8(elems) + "\\n")' + _CHT, "column header through a lambda"),
+    ("C04", "neutral", [], F_, _CH, '            f.write("".join(f"{x:8}" for x in (c + 1, s + 1, elems)) + "\\n")' + _CHT, "column header from a generator over a tuple"),
+    ("C04", "neutral", [], F_, _CH, '            f.write("{0:8}{1:8}{2:8}\\n".format(*(c + 1, s + 1, elems)))' + _CHT, "column header: starred tuple into str.format"),
+    ("C04", "neutral", [], F_, _CH, '            f.write(str(c + 1).rjust(8) + str(s + 1).rjust(8) + str(elems).rjust(8) + "\\n")' + _CHT, "column header with str().rjust(8)"),
+    ("C04", "neutral", [], F_, _CH, '            f.write(format(c + 1, "8") + format(s + 1, "8d") + format(elems, ">8") + "\\n")' + _CHT, "column header with the format() builtin"),
+    ("C04", "neutral", [], F_, _NBIS, _NBIS.replace("int(line)", "int(line.split()[0])"), "nonbigmat ascii reader: int(line.split()[0])"),
+    ("C04", "break", ["C04-R3"], F_, _CH, '            f.write(str(c + 1).rjust(8) + str(s + 1).rjust(7) + str(elems).rjust(8) + "\\n")' + _CHT, "column header: first-row field 7 wide"),
+    ("C04", "break", ["C04-R3"], F_, _CH, '            w8 = lambda x: f"{x:8}"\n            f.write(w8(c + 1) + w8(s) + w8(elems) + "\\n")' + _CHT, "column header through a lambda: 0-based first row"),
+]
+
+_IDX = "                np.all(cl[sortl] == ru[sortu])\n"
+RECIPES += [
+    ("C04", "break", ["C04-R8"], F_, _IDX, "                np.any(cl[sortl] == ru[sortu])\n", "sparse arm of _is_symmetric: column positions compared with any()"),
+    ("C04", "break", ["C04-R8"], F_, _IDX, "                np.all(cl[sortl] != ru[sortu])\n", "sparse arm of _is_symmetric: column positions required to differ"),
+    ("C04", "break", ["C04-R8"], F_, "                and np.all(rl[sortl] == cu[sortu])\n", "                or np.all(rl[sortl] == cu[sortu])\n",
+     "sparse arm of _is_symmetric: positions joined by or"),
+    ("C04", "neutral", [], F_, _IDX, "                not np.any(cl[sortl] != ru[sortu])\n", "sparse arm of _is_symmetric: not any(!=) for all(==)"),
+    ("C04", "neutral", [], F_, _IDX, "                np.array_equal(cl[sortl], ru[sortu])\n", "sparse arm of _is_symmetric: array_equal for all(==)"),
+]
+
+RECIPES += [
+    ("C04", "break", ["C04-R7"], F_, "            mtype = 4\n            multiplier = 2\n", "            mtype = 4\n            multiplier = 1\n", "_get_header_info: complex input with one real per entry"),
+    ("C04", "break", ["C04-R7"], F_, "            mtype = 2\n            multiplier = 1\n", "            mtype = 1\n            multiplier = 1\n", "_get_header_info: real input announced as type 1"),
 ]
